@@ -109,6 +109,8 @@ def check(ctx):
     ctx.rule("R-C01.1", "vocabulary: every C99 keyword / documented C11 keyword maps to a token type; every C99 punctuator is exactly one fixed token")
     ctx.rule("R-C01.2", "token-type closure: the parser only tests token types the lexer can emit; every emittable token type is consumed by some production")
     ctx.rule("R-C01.3", "inclusion of the reference grammar (ISO C99 Annex A.2 + documented C11) in the extracted grammar model, on a derivation-covering sentence set")
+    ctx.rule("R-C01.6", "every well-formed C99 literal (and documented extension) is lexed as one token of its class (decided by the C10 machinery)")
+    ctx.rule("R-C01.7", "a valid program is not refused by an internal error: every assert and partial operation reachable from parse() is discharged (decided by the C06 machinery)")
     ctx.rule("R-C01.4", "guard adequacy: no token a called production can start with is rejected by the look-ahead guards on every path")
     t = S.tables()
     lx, px = S.module("c_lexer"), S.module("c_parser")
@@ -294,6 +296,9 @@ def check(ctx):
     for gk, (desc, sent, cnt) in sorted(groups.items()):
         ctx.violation("R-C01.3", f"missing:{gk}", f"valid combination not accepted ({cnt} reference sentences) - e.g. {desc}: `{' '.join(sent)}` is derivable from the reference grammar but no path of the parser model consumes it",
                       file=px.rel, function="CParser (grammar model)", construct=" ".join(sent))
+    from . import share
+    share.borrow(ctx, "C10", ("R-C10.1",), "R-C01.6", count=30)
+    share.borrow(ctx, "C06", ("R-C06.2", "R-C06.3"), "R-C01.7", count=30)
     ctx.require_instances("R-C01.3", 1200)
     ctx.info["explanation"] = ("grammar conformance on the automata extracted from the parser by abstract interpretation: exact vocabulary / token-type closure, FIRST-based guard adequacy at every decision point of every "
                                "production clone, and inclusion of an independently transcribed ISO C99 Annex A.2 (+ documented C11) grammar, decided on a sentence set that takes every choice of every reference production once and "
